@@ -396,6 +396,26 @@ def _fmt_g(vals, v):
     return cases
 
 
+@adapter("rmkey")
+def _rmkey(vals, v):
+    """probe: removing a field of every visibility, observed through the hidden-aware observers"""
+    cases = []
+    for decl in ("a: 1", "a:: 1", "a::: 1"):
+        for base in ("{ %s, b: 2 }" % decl, "{ a: 0 } + { %s, b: 2 }" % decl, "{ a:: 0 } + { a: 1, b: 2 }"):
+            src = ('local o = std.objectRemoveKey(%s, "a"); { hasAll: std.objectHasAll(o, "a"), inop: "a" in o, all: std.member(std.objectFieldsAll(o), "a"), '
+                   'sup: (o + { r: "a" in super }).r, b_ok: o.b == 2, ok: !self.hasAll && !self.inop && !self.all && !self.sup && self.b_ok }' % base)
+            cases.append({"source": "[" + src + "]", "oracle": {"oracle": "json_self_check", "field": "ok"}})
+    return cases
+
+
+@adapter("sort_entry")
+def _sort_entry(vals, v):
+    return [{"source": 'std.length(std.sort([error "x"]))', "oracle": {"oracle": "stdout_equals", "value": "1\n"}},
+            {"source": 'std.length(std.sort([1], keyF=function(x) error "k"))', "oracle": {"oracle": "stdout_equals", "value": "1\n"}},
+            {"source": 'std.length(std.sort([]))', "oracle": {"oracle": "stdout_equals", "value": "0\n"}},
+            {"source": 'std.sort([3, 1, 2])', "oracle": {"oracle": "stdout_json_equals", "expected": [1, 2, 3]}}]
+
+
 @adapter("crop")
 def _crop(vals, v):
     """every small crop size (and the counterexample's, clipped) on a run-time error with a 12-frame trace"""
